@@ -2,11 +2,11 @@
    Only ExtrOcamlBasic is used (bool, option, unit, list, prod, sumbool, sumor; andb/orb inlined).
    Z / N / positive / nat / byte stay the extracted inductive types. No directive of our own. *)
 From Coq Require Import Extraction ExtrOcamlBasic ZArith NArith List.
-From MS Require Import Base.Bytes Base.Outcome Webp.BitBuf Webp.BitBufSpec Webp.BitBufRun.
+From MS Require Import Base.Bytes Base.Outcome Webp.BitBuf Webp.BitBufSpec Webp.BitBufRun Webp.BitBufFault.
 Extraction Language OCaml.
 Set Extraction KeepSingleton.
 
 Extraction "model.ml"
   N.add Z.add Nat.add N.of_nat N.to_nat Z.of_N Z.to_N
   Bytes.n2b Bytes.b2n
-  BitBufRun.run_seq.
+  BitBufRun.run_seq BitBufFault.run_seq_f.
